@@ -1,4 +1,4 @@
 SPECIFICATION Spec
-CONSTANTS MaxN = 2 MaxK = 4
+CONSTANTS MaxN = 2 MaxK = 4 MaxI = 2
 INVARIANT InvEvents
 CHECK_DEADLOCK FALSE
